@@ -46,6 +46,18 @@ def rand_class(rng, max_alpha=3, max_prefix=3, max_stats=3, bytes_p=0.15, atoms=
         d["right"] = {"prefix": "".join(rng.choice(alphabet) for _ in range(rng.choice((0, 0, 1)))),
                       "patterns": sorted(rp), "alphabet": alphabet, "just_prefix": False,
                       "stats": stats, "proper": bool(rng.random() < 0.15), "right": None}
+        if stats and rng.random() < 0.45:
+            # sided statistics (counted in one word of the pair only), and often the same words
+            # class on both sides: a product with two equal factors reached by different statistics
+            if rng.random() < 0.6:
+                # the same words class with the same statistics on both sides
+                d["right"].update(prefix=d["prefix"], patterns=d["patterns"], proper=d["proper"])
+                stats = [[f"k_{2 * i + j}", mark + l] for i, (_, l) in enumerate(stats[:2])
+                         for j, mark in enumerate("<>")]
+            else:
+                stats = [[k, rng.choice(("<", ">", "<", ">", "")) + l] for k, l in stats]
+            d["stats"] = stats
+            d["right"]["stats"] = stats
     if d["bytes"] and not d["just_prefix"] and rng.random() < 0.4:
         d["mixed"] = True  # compressed classes with plain (uncompressed) atoms in one class database
     if d["right"] is None and not d["just_prefix"] and rng.random() < 0.07:
@@ -81,7 +93,7 @@ def rand_pack(rng, cls=None, allow_iterative=True, allow_prefix_ver=True, allow_
     has_stats = bool(cls and cls["stats"])
     vers = ["stat", "stat", "stat"]
     if not has_stats:
-        vers.append("libatom")
+        vers += ["libatom", "subatom"]
     if allow_prefix_ver:
         vers += ["prefix1", "prefix2"]
     o["ver"] = rng.choice(vers)
